@@ -195,6 +195,10 @@ class _StderrFilter:
 
 
 def worker_main(mod, partname, tier, seed, shard, nshards, budget, out):
+    try:
+        os.setpgid(0, 0)  # own process group: everything this shard starts can be found (and killed) at the end
+    except OSError:
+        pass
     cap_memory()
     sys.stderr = _StderrFilter(sys.stderr)
     tree.use()
@@ -226,16 +230,11 @@ def worker_main(mod, partname, tier, seed, shard, nshards, budget, out):
                 status, err = "harness-error", "teardown: " + repr(e)
         shutil.rmtree(ctx.scratch, ignore_errors=True)
     # no process started by this shard may outlive it (a leaked worker would also keep our stdout/stderr open)
-    from .core import descendants
+    from .core import kill_leftovers
 
-    leaked = descendants()
-    for pid_ in leaked:
-        try:
-            os.kill(pid_, 9)
-        except OSError:
-            pass
+    n_leaked = kill_leftovers()
     res = col.result()
-    res["extra"]["processes_killed_at_shard_end"] = len(leaked)
+    res["extra"]["processes_killed_at_shard_end"] = n_leaked
     res.update(status=status, error=err, shard=shard)
     with open(out, "w") as f:
         json.dump(res, f)
